@@ -202,22 +202,32 @@ func TestC21(t *testing.T) {
 	// an ack (epoch e, seqno n) that matches a message it forwarded in epoch e,
 	// the partner's Send of that message reports success: the application must
 	// have been handed exactly that message before.
-	mc.RunScenarios(t, agg, 1, func(i int) *vsync.Config {
-		return &vsync.Config{Name: "client-s2/receiver-reopened-without-close", Bound: bound + 1, Delay: true, Deadline: run.Deadline(), MaxStep: 20000, Horizon: 2 * time.Minute,
+	// second variant (a relay that drops messages): no re-open; the partner
+	// cancelled "old" and sent "new" (message seqno 2) in the SAME epoch, and the
+	// relay dropped the clear, so "new" simply replaces "old" at the receiver.
+	recvNames := []string{"receiver-reopened-without-close", "receiver-next-message-replaces-unacked-one-without-clear"}
+	mc.RunScenarios(t, agg, len(recvNames), func(vi int) *vsync.Config {
+		newEpoch, newSeq := uint64(4), uint64(1)
+		if vi == 1 {
+			newEpoch, newSeq = 2, 2
+		}
+		return &vsync.Config{Name: "client-s2/" + recvNames[vi], Bound: bound + 1, Delay: true, Deadline: run.Deadline(), MaxStep: 20000, Horizon: 2 * time.Minute,
 			Body: func() {
 				s := sigh.NewS2(0, 0)
 				old := s.PartnerMsg("old", 1, "B", "B", false, false)
-				nw := s.PartnerMsg("new", 1, "B", "B", false, false)
+				nw := s.PartnerMsg("new", newSeq, "B", "B", false, false)
 				var wg vsync.WaitGroup
 				wg.Add(2)
 				partner := func() {
 					defer wg.Done()
 					vsync.Yield("re-open")
 					d := s.Relay.Cur()
-					vsync.LogOrdered("relay: opened 4")
-					_ = d.ToCli.Push(sigh.Opened(4))
-					vsync.Yield("new message")
-					vsync.LogOrdered("relay: forwarded new e=4 n=1")
+					if newEpoch != 2 {
+						vsync.LogOrdered("relay: opened %d", newEpoch)
+						_ = d.ToCli.Push(sigh.Opened(newEpoch))
+						vsync.Yield("new message")
+					}
+					vsync.LogOrdered("relay: forwarded new e=%d n=%d", newEpoch, newSeq)
 					_ = d.ToCli.Push(sigh.RecvMsg(nw))
 				}
 				s.Relay.Script = func(r *sigh.RefRelay, req *signaling.SessionRequest) []*signaling.SessionResponse {
